@@ -2,8 +2,8 @@
    Only statements, `exact`, and Print Assumptions.  M = Model/ImscTime.v, Model/ImscTiming.v (transcription of
    ttconv/imsc/utils.py, attributes.py, elements.py), S = Spec/TtmlTimingSpec.v.  All statements are for unbounded
    inputs (every time expression of the grammar, every XML tree, every parsing context). *)
-From TT Require Import Base.Prelude Base.ImscXml Model.ImscTime Model.ImscTiming Spec.TtmlTimingSpec.
-From TT Require Import Proofs.C04.TimeSyntax Proofs.C04.Interval Proofs.C04.Total Proofs.C04.Params.
+From TT Require Import Base.Prelude Base.ImscXml Model.ImscTime Model.ImscStyles Model.ImscTiming Model.ImscTriggers Spec.TtmlTimingSpec.
+From TT Require Import Proofs.C04.TimeSyntax Proofs.C04.TimeReject Proofs.C04.Interval Proofs.C04.Total Proofs.C04.TotalSeq Proofs.C04.Params Proofs.C04.BadAttr Proofs.C04.Styles.
 From Coq Require Import QArith.
 Local Open Scope Z_scope.
 
@@ -17,9 +17,10 @@ Proof. exact time_syntax. Qed.
 (* a string whose last character is neither a digit nor a metric letter is not a time expression *)
 Theorem C04_time_not_in_grammar : forall l c, is_digit c = false -> ~ In c [104; 109; 115; 102; 116] -> ~ in_grammar (l ++ [c]).
 Proof. exact not_in_grammar_last. Qed.
-(* full statement, not proved (what is missing: the completeness direction of the recognisers):
-     C04_time_reject_partial : forall tr fr s, lax_trigger s = false -> ~ in_grammar s -> parse_time tr fr s = None
-   the unconditional statement is refuted in Findings/C04.v (C04_time_reject_refuted). *)
+(* rejection: a string outside the grammar has no value, unless it ends with a line feed or is a frame offset followed by anything
+   (executable trigger lax_trigger: the finding lax-value-syntax; the unconditional statement is refuted in Findings/C04.v) *)
+Theorem C04_time_reject_partial : forall tr fr s, lax_trigger s = false -> ~ in_grammar s -> parse_time tr fr s = None.
+Proof. exact time_reject. Qed.
 
 (* intervals: for every XML tree x and every parsing context in which the reader model returns (and reports no
    content-model error), its desired begin and end of x are the begin and end of the TTML2 interval semantics of x,
@@ -32,11 +33,20 @@ Theorem C04_interval : forall ev x pc r,
     oq_rel (r_des_end r) (snd (interval (tv_of ev) (negb (pc_par pc)) sync x)).
 Proof. exact interval_sound. Qed.
 
-(* totality: with non-zero rates, a tree without sequential containers is always read.  The unconditional statement is
-   refuted in Findings/C04.v (C04_read_total_refuted, finding seq-indefinite-sibling; C04_zero_rate_refuted). *)
+(* totality: with non-zero rates, a tree without sequential containers is always read, unless set_style raises ValueError during
+   referential or nested styling (outcome 5, finding style-invalid-value-abort).  The unconditional statement is refuted in
+   Findings/C04.v (C04_read_total_refuted: finding seq-indefinite-sibling; C04_zero_rate_refuted; C04_style_abort_refuted). *)
 Theorem C04_read_total_partial : forall ev x pc, rates_ok ev -> pc_par pc = true -> no_seq x = true ->
-  forall e, process ev pc x <> PErr e.
+  forall e, process ev pc x = PErr e -> e = 5.
 Proof. intros ev x pc H. exact (read_total_no_seq ev x H pc). Qed.
+
+(* the same with sequential containers and the narrow trigger of the finding seq-indefinite-sibling (Model/ImscTriggers.v: a timed child of
+   a seq container follows a sibling whose TTML2 end is indefinite, or a seq br/set/region in a par parent has a timed child): on a
+   tree with a plain content model (no ruby containers; children of the kinds their parents accept) on which the trigger does not
+   fire, process never raises TypeError or ZeroDivisionError, in any context that has a syncbase *)
+Theorem C04_read_total_seq_partial : forall ev x pc, rates_ok ev -> simple_content x = true -> implicit_begin pc <> None ->
+  trigger_seq (tv_of ev) (negb (pc_par pc)) x = false -> forall e, process ev pc x = PErr e -> e = 5.
+Proof. intros ev x pc Hr Hs. exact (read_total_narrow ev x Hr Hs pc). Qed.
 
 (* document parameters on well-formed attribute values *)
 Theorem C04_frame_rate : forall attrs fr mult, frame_rate_wf attrs fr mult ->
@@ -49,18 +59,60 @@ Theorem C04_tick_rate_default_partial : forall attrs, get_attr attrs A_tickRate 
   extract_tick_rate attrs = 1 /\ (spec_tick_rate attrs == 1)%Q.
 Proof. exact tick_rate_default. Qed.
 
+(* malformed attributes are ignored: the element is read exactly as without the attribute, in every context, for a begin / dur / end
+   value that is not a time expression, an xml:space value other than default / preserve, a timeContainer value other than seq (par is
+   the default); and a style attribute whose value is rejected is skipped by specified styling *)
+Theorem C04_bad_attr_ignored_time : forall ev pc tag attrs txt tail cs a s,
+  time_attr a -> get_attr attrs a = Some s -> parse_time_x (Some (e_tr ev)) (Some (e_fr ev)) s = TBad ->
+  (forall v, e_to_model ev a v = None) ->
+  process ev pc (X tag attrs txt tail cs) = process ev pc (X tag (remove_attr attrs a) txt tail cs).
+Proof. exact bad_time_attr_ignored. Qed.
+Theorem C04_bad_attr_ignored_space : forall ev pc tag attrs txt tail cs v,
+  get_attr attrs A_space = Some v -> text_eqb v V_default = false -> text_eqb v V_preserve = false ->
+  (forall w, e_to_model ev A_space w = None) ->
+  process ev pc (X tag attrs txt tail cs) = process ev pc (X tag (remove_attr attrs A_space) txt tail cs).
+Proof. exact bad_space_ignored. Qed.
+Theorem C04_bad_attr_ignored_time_container : forall ev pc tag attrs txt tail cs v,
+  get_attr attrs A_timeContainer = Some v -> text_eqb v V_seq = false ->
+  (forall w, e_to_model ev A_timeContainer w = None) ->
+  process ev pc (X tag attrs txt tail cs) = process ev pc (X tag (remove_attr attrs A_timeContainer) txt tail cs).
+Proof. exact bad_time_container_ignored. Qed.
+Theorem C04_bad_attr_ignored_style : forall tm vl attrs a v,
+  get_attr attrs a = Some v -> (tm a v = None \/ exists p x, tm a v = Some (p, x) /\ vl p x = false) ->
+  forall d, NoDup (List.map fst attrs) -> apply_specified tm vl attrs d = apply_specified tm vl (remove_attr attrs a) d.
+Proof. exact bad_style_attr_ignored. Qed.
+(* the unconditional "every malformed attribute is ignored and logged" is refuted for the cases of the findings lax-value-syntax,
+   zero-rate-division, tt-parameter-abort, bad-ruby-drops-span, style-invalid-value-abort, lax-style-syntax (Findings/C04.v and the
+   corrupt stream of the check); log records are not modelled. *)
+
+(* style precedence of the reader model, as look-up equations for every property p: specified styling makes an inline value win over
+   what the element had; set-if-absent keeps what the element has (nested styling before referential); references are visited later
+   ones first and the first style that has p provides it.  Chained references are flattened beforehand (merge_chained): that step is
+   compared with Spec/TtmlStyleSpec.v on generated style graphs only. *)
+Theorem C04_styles_inline : forall tm vl attrs d p,
+  dict_get (apply_specified tm vl attrs d) p = inline_value tm vl attrs p (dict_get d p).
+Proof. exact specified_get. Qed.
+Theorem C04_styles_set_if_absent : forall vl src d d' p, merge_absent vl src d = Some d' ->
+  dict_get d' p = match dict_get d p with Some x => Some x | None => dict_get src p end.
+Proof. exact merge_absent_get. Qed.
+Theorem C04_styles_referential : forall vl t refs d d' p, referential vl t refs d = Some d' ->
+  dict_get d' p = match dict_get d p with Some x => Some x | None => first_provider t refs p end.
+Proof. exact referential_get. Qed.
+
 (* non-vacuity: "00:00:01:12" at 25 fps is 1.48 s; <div begin="1s"><p dur="2s"/><p end="5s"/></div> ends at 6 s *)
 Example C04_example_clock_frames :
   parse_time (Some 1) (Some (25 # 1)) (print_time (TClockFrames [0; 0] 0 0 0 1 [1; 2])) = Some (0 * 3600 + 0 * 60 + 1 + (12 # 1) / (25 # 1))%Q.
 Proof. reflexivity. Qed.
 Example C04_example_interval :
   let x := X T_div [(A_begin, [49; 115])] None None [X T_p [(A_dur, [50; 115])] None None []; X T_p [(A_end, [53; 115])] None None []] in
-  match process (mkEnv 1 (30 # 1) [] (fun _ _ => false)) (mkPctx true None 0 false [] true) x with
+  match process (mkEnv 1 (30 # 1) [] (fun _ _ => None) (fun _ _ => true) []) (mkPctx true None 0 false [] true) x with
   | POk r => Qeq_bool (r_des_begin r) 1 && match r_des_end r with Some e => Qeq_bool e 6 | None => false end && negb (r_pushfail r)
   | _ => false
   end = true.
 Proof. vm_compute. reflexivity. Qed.
 
-Print Assumptions C04_time_syntax.  Print Assumptions C04_time_not_in_grammar.  Print Assumptions C04_interval.
-Print Assumptions C04_read_total_partial.  Print Assumptions C04_frame_rate.  Print Assumptions C04_tick_rate_partial.
+Print Assumptions C04_time_syntax.  Print Assumptions C04_time_not_in_grammar.  Print Assumptions C04_time_reject_partial.  Print Assumptions C04_interval.
+Print Assumptions C04_read_total_partial.  Print Assumptions C04_read_total_seq_partial.  Print Assumptions C04_frame_rate.  Print Assumptions C04_tick_rate_partial.
 Print Assumptions C04_tick_rate_default_partial.
+Print Assumptions C04_bad_attr_ignored_time.  Print Assumptions C04_bad_attr_ignored_space.  Print Assumptions C04_bad_attr_ignored_time_container.
+Print Assumptions C04_bad_attr_ignored_style.  Print Assumptions C04_styles_inline.  Print Assumptions C04_styles_set_if_absent.  Print Assumptions C04_styles_referential.
